@@ -79,12 +79,33 @@ func (tenants) Decode(raw json.RawMessage) (any, error) {
 }
 
 func genTenant(r *core.PRNG) TenantSpec {
-	if r.Chance(1, 4) {
+	if k := r.Pick(5, 2, 3); k > 0 {
+		// mux: its own Muxer history; pipeline: the same, with typed descriptors of every kind in
+		// the PMT, whose output the tenant then demuxes with its own Demuxer
 		t := TenantSpec{Kind: "mux", Period: []int{1, 2, 5}[r.Intn(3)]}
+		if k == 2 {
+			t.Kind = "pipeline"
+		}
 		pid := uint16(r.Range(0x100, 0x1f00))
-		t.Ops = []MuxOp{{Op: "add", H: -1, PID: pid, Type: 0x1b}, {Op: "setpcr", H: 0}}
+		add := MuxOp{Op: "add", H: -1, PID: pid, Type: 0x1b}
+		if k == 2 {
+			nd := r.Range(1, 4)
+			for i := 0; i < nd; i++ {
+				add.Descs = append(add.Descs, DescSpec{Kind: "typed:" + TypedDescNames[r.Intn(len(TypedDescNames))], Seed: r.Uint64(), N: r.Range(1, 3)})
+			}
+		}
+		t.Ops = []MuxOp{add, {Op: "setpcr", H: 0}}
 		n := r.Range(1, 5)
 		for i := 0; i < n; i++ {
+			if r.Chance(1, 4) {
+				pk := &PktSpec{PID: 0x1f00, CC: uint8(r.Intn(16)), HasPayload: true, PayloadLen: r.Range(1, 184), Tag: 50 + i}
+				if r.Chance(1, 3) {
+					pk.AF = genAF(r, 8, false)
+					pk.PayloadLen = r.Range(1, 184-pk.AF.Size())
+				}
+				t.Ops = append(t.Ops, MuxOp{Op: "packet", H: -1, Pkt: pk})
+				continue
+			}
 			ps := genPESSpec(r, false)
 			op := MuxOp{Op: "data", H: 0, PES: &ps, Len: genLen(r, ps.HeaderSize(), 0, false), Tag: 1 + i}
 			if r.Chance(1, 3) {
@@ -173,7 +194,8 @@ func runTenant(spec *TenantSpec, yield func()) (res *tenantResult) {
 			res.panicMsg = fmt.Sprint(r)
 		}
 	}()
-	if spec.Kind == "mux" {
+	var muxed []byte
+	if spec.Kind == "mux" || spec.Kind == "pipeline" {
 		var buf bytes.Buffer
 		period := spec.Period
 		if period < 1 {
@@ -188,7 +210,11 @@ func runTenant(spec *TenantSpec, yield func()) (res *tenantResult) {
 			}
 			switch op.Op {
 			case "add":
-				err := m.AddElementaryStream(astits.PMTElementaryStream{ElementaryPID: op.PID, StreamType: astits.StreamType(op.Type)})
+				es := astits.PMTElementaryStream{ElementaryPID: op.PID, StreamType: astits.StreamType(op.Type)}
+				for _, d := range op.Descs {
+					es.ElementaryStreamDescriptors = append(es.ElementaryStreamDescriptors, d.ToAstits())
+				}
+				err := m.AddElementaryStream(es)
 				pids[i] = op.PID
 				res.keys = append(res.keys, "add:"+errClass(err))
 				res.live = append(res.live, nil)
@@ -203,32 +229,51 @@ func runTenant(spec *TenantSpec, yield func()) (res *tenantResult) {
 				if op.PES != nil {
 					spec0 = *op.PES
 				}
-				payload := Payload(op.Tag, op.Len)
+				frame, payload := guardedPayload(op.Tag, op.Len)
 				d := &astits.MuxerData{PID: pids[op.H], AdaptationField: AFToAstits(op.AF), PES: &astits.PESData{Data: payload, Header: spec0.ToAstits()}}
 				n, err := m.WriteData(d)
 				res.keys = append(res.keys, fmt.Sprintf("data:%d:%s", n, errClass(err)))
 				res.live = append(res.live, nil)
-				if !bytes.Equal(payload, Payload(op.Tag, op.Len)) && res.payload == "" {
-					res.payload = fmt.Sprintf("WriteData call %d modified the caller's payload bytes", i)
+				if !guardIntact(frame, op.Tag, op.Len) && res.payload == "" {
+					res.payload = fmt.Sprintf("WriteData call %d modified the caller's buffer (payload bytes or the bytes around them)", i)
+				}
+			case "packet":
+				pk := op.Pkt.ToAstits()
+				frame, payload := guardedPayload(op.Pkt.Tag, op.Pkt.PayloadLen)
+				pk.Payload = payload
+				n, err := m.WritePacket(pk)
+				res.keys = append(res.keys, fmt.Sprintf("packet:%d:%s", n, errClass(err)))
+				res.live = append(res.live, nil)
+				if !guardIntact(frame, op.Pkt.Tag, op.Pkt.PayloadLen) && res.payload == "" {
+					res.payload = fmt.Sprintf("WritePacket call %d modified the caller's buffer (payload bytes or the bytes around them)", i)
 				}
 			}
 		}
 		s := sha256.Sum256(buf.Bytes())
 		res.outSum = fmt.Sprintf("%d:%x", buf.Len(), s[:8])
-		return
+		if spec.Kind == "mux" || buf.Len()%188 != 0 || buf.Len() == 0 {
+			return
+		}
+		muxed = append(muxed, buf.Bytes()...)
 	}
-	b, err := spec.Model.Build()
-	if err != nil {
-		return
+	var data []byte
+	npk := 0
+	if muxed != nil {
+		data, npk = muxed, len(muxed)/188
+	} else {
+		b, err := spec.Model.Build()
+		if err != nil {
+			return
+		}
+		data, npk = refts.Join(b.Packets), len(b.Packets)
 	}
-	data := refts.Join(b.Packets)
 	rd, _ := world.NewReader(data, world.ReaderPlan{Kind: "seekable"}, nil)
 	dmx := astits.NewDemuxer(context.Background(), rd, astits.DemuxerOptPacketSize(188))
 	api := spec.API
 	if len(api) == 0 {
 		api = []string{"data"}
 	}
-	for i := 0; i < len(b.Packets)*4+16; i++ {
+	for i := 0; i < npk*4+16; i++ {
 		if yield != nil {
 			yield()
 		}
@@ -551,4 +596,26 @@ func (tenants) Shrink(scAny any) []any {
 		out = append(out, &c)
 	}
 	return out
+}
+
+const guardLen = 24
+
+// guardedPayload places the payload in the middle of a larger caller buffer: the slice handed
+// to the library has spare capacity behind it, as a sub-slice of a frame buffer would.
+func guardedPayload(tag, n int) (frame, payload []byte) {
+	frame = make([]byte, guardLen+n+guardLen)
+	for i := range frame {
+		frame[i] = 0xEE
+	}
+	copy(frame[guardLen:], Payload(tag, n))
+	return frame, frame[guardLen : guardLen+n]
+}
+
+func guardIntact(frame []byte, tag, n int) bool {
+	for i := 0; i < guardLen; i++ {
+		if frame[i] != 0xEE || frame[guardLen+n+i] != 0xEE {
+			return false
+		}
+	}
+	return bytes.Equal(frame[guardLen:guardLen+n], Payload(tag, n))
 }
